@@ -271,6 +271,10 @@ class WorkStealingScheduling:
         crashed or None if the node has no more pending items.
         """
         pending = self.node2pending.pop(node)
+        if not self.collection_is_completed:
+            # Not all initial collections are in yet: the replacement of this
+            # node has to report a collection in its place.
+            self.node2collection.pop(node, None)
 
         # If node was removed without completing its assigned tests - it crashed
         if pending:
